@@ -161,6 +161,16 @@ func TestC17(t *testing.T) {
 			}
 			c.Count("shape.percent_in_property_name")
 		}
+		if rapid.IntRange(0, 2).Draw(rt, "longdefault") == 0 {
+			// an array default with 6-9 elements (the default must be applied by both decoders)
+			k := rapid.IntRange(6, 9).Draw(rt, "longdefaultn")
+			a := jv.ArrV()
+			for i := 0; i < k; i++ {
+				a.A = append(a.A, jv.IntV(int64(rapid.IntRange(-50, 50).Draw(rt, "longdefaultv"))))
+			}
+			f.Root.Props = append(f.Root.Props, model.Prop{Name: "zlongdefault", Node: &model.Node{Kind: model.KArray, Items: &model.Node{Kind: model.KInteger}, Default: &a}})
+			c.Count("shape.long_array_default")
+		}
 		if rapid.IntRange(0, 2).Draw(rt, "fracbool") == 0 {
 			// integer with a non-integral bound in the draft-4 form (boolean exclusive flag)
 			k := float64(rapid.IntRange(-5, 40).Draw(rt, "frack")) + 0.5
